@@ -8,11 +8,18 @@ pub struct Cfg {
     pub max_width: usize,
     pub tab_spaces: usize,
     pub reorder: bool,
+    /// `blank_lines_upper_bound` (library-only option; the CLI always uses the default 2)
+    #[serde(default = "default_blank")]
+    pub blank: usize,
+}
+
+fn default_blank() -> usize {
+    2
 }
 
 impl Default for Cfg {
     fn default() -> Self {
-        Cfg { max_width: 80, tab_spaces: 2, reorder: false }
+        Cfg { max_width: 80, tab_spaces: 2, reorder: false, blank: 2 }
     }
 }
 
@@ -21,10 +28,14 @@ impl Cfg {
         Cfg { max_width, ..Default::default() }
     }
     pub fn wt(max_width: usize, tab_spaces: usize) -> Cfg {
-        Cfg { max_width, tab_spaces, reorder: false }
+        Cfg { max_width, tab_spaces, reorder: false, blank: 2 }
     }
     pub fn show(&self) -> String {
-        format!("w={} tab={} reorder={}", self.max_width, self.tab_spaces, self.reorder)
+        if self.blank == 2 {
+            format!("w={} tab={} reorder={}", self.max_width, self.tab_spaces, self.reorder)
+        } else {
+            format!("w={} tab={} reorder={} blank={}", self.max_width, self.tab_spaces, self.reorder, self.blank)
+        }
     }
 }
 
